@@ -12,6 +12,14 @@ Mut(o) == [op |-> o, num |-> 0, den |-> 1, mask |-> 0, byte |-> 0]
 Signed == {[k |-> "cs", doc |-> d, key |-> sk, keyring |-> kr, mut |-> m] :
               d \in Docs, sk \in {"k1", "k2"}, kr \in Keyrings, m \in {Mut(o) : o \in Ops}}
           \cup {[k |-> "cs", doc |-> d, key |-> "k1", keyring |-> <<"k1">>, mut |-> m] : d \in Docs, m \in Frac}
+\* a signed text whose LATER part is not a control file (a line without colon; a continuation line that opens a paragraph):
+\* `good` is its well-formed beginning
+BadTails == {[k |-> "cs", doc |-> Doc(g \o t, FALSE, TRUE), good |-> Doc(g, FALSE, TRUE), key |-> "k1", keyring |-> kr, mut |-> Mut("none")] :
+                g \in {<<1, 4, 9>>, <<1, 9, 2, 4, 9>>}, t \in {<<10, 1>>, <<4, 1>>, <<1, 10>>}, kr \in {<<"k1">>, <<"k2">>}}
+\* the source fails once at 1/8 .. 8/8 of a validly signed document (the armor line has been seen by then) and then delivers
+\* foreign text
+Faults == {[k |-> "cs", doc |-> d, key |-> sk, keyring |-> kr, mut |-> Mut("none"), via |-> "fault", fault_num |-> n, fault_den |-> 8] :
+              d \in Docs, sk \in {"k1"}, kr \in {<<"k1">>, <<"k2">>, <<>>}, n \in 1..8}
 \* an empty keyring in both of its Go forms: EntityList{} and a nil EntityList behind a non-nil pointer
 EmptyForms == {[k |-> "cs", doc |-> d, key |-> sk, keyring |-> <<>>, ring_form |-> f, mut |-> Mut(o)] :
                   d \in Docs, sk \in {"k1", "k2"}, f \in {"empty-slice", "nil-slice"}, o \in {"none", "splice_inside", "drop_sig"}}
@@ -49,5 +57,5 @@ OpsFor(ds, extra, order, pollBefore) ==
     \o Nx(1, 1)
 ReaderOps == {[k |-> "cs_ops", docs |-> ds, keys |-> <<"k1", "k1", "">>, ops |-> OpsFor(ds, e, o, pb)] :
                  ds \in {<<DocA, DocB, DocC>>, <<DocC, DocA, DocB>>}, e \in 0..2, o \in {"ab", "ba", "alt"}, pb \in BOOLEAN}
-ASSUME Emit(SetToSeq(Signed \cup Unsigned) \o SetToSeq(NilRing) \o SetToSeq(EmptyForms) \o SetToSeq(Seqs) \o SetToSeq(ReaderOps) \o SetToSeq(MultiSig))
+ASSUME Emit(SetToSeq(Signed \cup Unsigned) \o SetToSeq(NilRing) \o SetToSeq(EmptyForms) \o SetToSeq(Seqs) \o SetToSeq(ReaderOps) \o SetToSeq(MultiSig) \o SetToSeq(BadTails) \o SetToSeq(Faults))
 =============================================================================
